@@ -220,7 +220,6 @@ func init() {
 			return runHistory(rInt(l[1])).trace
 		}
 		vanguard.VerifPoolPoison.Store(true)
-		defer vanguard.VerifPoolPoison.Store(false)
 		return runConcurrentBatch(rInt(l[1])).trace
 	}
 }
